@@ -342,8 +342,14 @@ class Soap11(XmlDocument):
             if ctx.in_body_doc is None:
                 ctx.in_object = [None] * len(body_class._type_info)
             else:
-                ctx.in_object = self.from_element(ctx, body_class,
+                try:
+                    ctx.in_object = self.from_element(ctx, body_class,
                                                                 ctx.in_body_doc)
+                except RecursionError:
+                    # multi-reference values are nested in each other after
+                    # the parser (and its depth limit) is done.
+                    raise ValidationError(None,
+                                        "The document is nested too deeply")
 
                 # a nil message element carries no arguments, just like a
                 # missing one.
